@@ -69,6 +69,8 @@ func configs() []config {
 	if ev.Thorough() {
 		rc = []pass{{4, unbounded}}
 	}
+	out = append(out, config{Name: "workers=1,queue=big,failures=connector-gave-up", ConcurrentPins: 1, Queue: bigQueue,
+		Cids: []string{"a", "b"}, Kinds: allKinds, Passes: rc, FailCanceled: true})
 	out = append(out, config{Name: "real-connector,workers=1,queue=big", ConcurrentPins: 1, Queue: bigQueue,
 		Cids: []string{"a", "b"}, Kinds: allKinds, Passes: rc, RealConn: true})
 	return out
